@@ -3191,7 +3191,9 @@ def ulp(x):
         return dtype("nan")
     if x < 0:
         return ulp(-x)
-    return numpy.ldexp(dtype(1), numpy.frexp(x)[1] + numpy.finfo(dtype).negep)
+    fi = numpy.finfo(dtype)
+    # the spacing of subnormal numbers is that of the smallest normal binade
+    return numpy.ldexp(dtype(1), max(numpy.frexp(x)[1], fi.minexp + 1) + fi.negep)
 
 
 def overlapping(x, y):
